@@ -34,8 +34,9 @@ REQUIRED = {"quick": {"selection": 1000, "local_ranks": 600, "lazy_iter": 300, "
             "thorough": {"selection": 5000, "local_ranks": 3000, "lazy_iter": 1500, "write_confinement": 1500}}
 
 
-def make_world(rng, kind):
-    st = trees.random_structure(rng, kind=kind, max_branches=4, max_cells=4, nmax=4)
+def make_world(rng, kind, st=None):
+    if st is None:
+        st = trees.random_structure(rng, kind=kind, max_branches=4, max_cells=4, nmax=4)
     if kind == "network" and len(st["cells"]) < 2:
         st["cells"].append({"parents": [-1, 0], "ncomp": [2, 3]})
     cell, branch, comp, ncpb = [], [], [], []
@@ -95,6 +96,9 @@ def gen_chain(rng, world, depth):
     nbase = len(world["arrays"]["comp"])
     ops = []
     cur = vm
+    if rng.random() < 0.2 and depth > 1:
+        ops.append({"op": "scope", "s": "global"})
+        cur = cur.scope("global")
     for _ in range(depth):
         choices = ["level"] * 6 + ["scope"] * 2 + ["loc", "select"]
         if kind == "network":
@@ -114,6 +118,8 @@ def gen_chain(rng, world, depth):
             col = cur.col(level)
             uniq = np.unique(col)
             form = str(rng.choice(FORMS))
+            if cur.scope_ == "global" and len(cur.nodes) < nbase and rng.random() < 0.4:
+                form = "slice"  # global labels on a strict sub-view: a slice denotes labels, not positions in the view
             if form == "bool":
                 gl = {"cell": cur.cell, "branch": cur.branch, "comp": cur.comp}[level][cur.nodes]
                 if not (len(np.unique(gl)) == len(uniq) and list(uniq) == list(range(len(uniq)))):
